@@ -629,7 +629,7 @@ macro_rules! get_byte_order {
 
         let cur = self.len - SIZE;
         let buf = self.buffer();
-        let value = <$ty>::from_be_bytes(buf[cur..cur + SIZE].try_into().unwrap());
+        let value = <$ty>::$converter(buf[cur..cur + SIZE].try_into().unwrap());
         self.len -= SIZE;
         value
       }
